@@ -124,6 +124,9 @@ Record rsigs := mk_rsigs { rs_csig : sig; rs_rsig : sig; rs_npol : nat }.
     transaction has exactly one contract (one renewal resolution), that transaction *)
 Record final := mk_final { f_basis : N; f_len : nat; f_shape : bool; f_txn : atxn }.
 
+(** values are 128-bit: summing the inputs the other side names overflows beyond this *)
+Definition max_currency : Z := 340282366920938463463374607431768211455.
+
 Definition pids (l : list (N * Z)) : list N := map fst l.
 Definition psum (l : list (N * Z)) : Z := fold_right (λ p a, snd p + a) 0 l.
 
@@ -282,7 +285,11 @@ Definition exec (k : kind) (e : env) (m1 : option req) (m2 : option rsigs)
       end
   | SAccepting => cont (e_accepting e) x
   | SValidate => cont (e_valid e) x
-  | SRenterFunding => cont (negb (psum (x_rin x) <? ct_rfund (x_terms x))) x
+  (* the handler sums the values the renter names with Currency.Add: an overflowing sum
+     panics (recovered by handleHostStream, the stream is dropped) - before anything is
+     reserved; otherwise the sum must cover the renter's cost *)
+  | SRenterFunding =>
+      cont (negb (max_currency <? psum (x_rin x)) && negb (psum (x_rin x) <? ct_rfund (x_terms x))) x
   (* server.go renew 1117-1120 / refresh 936-939: looked up, and its error returned, before
      FundV2Transaction reserves anything *)
   | SElement => cont (e_elem_found e) (add_call x (CElement (e_elem_found e)))
@@ -511,6 +518,9 @@ Definition renter_run (fixed : bool) (k : kind) (re : renv) (r : renter) (t : ct
     | None => r_fail r w sel [] c0 s1 true
     | Some hi =>
       let extra := pids (hi_inputs hi) in
+      (* the host's values are summed with AddWithOverflow (repair C16-3; Currency.Add
+         panicked and kept the renter's inputs reserved): an overflowing sum is refused *)
+      if (max_currency <? psum (hi_inputs hi)) then r_fail r w sel extra c0 s1 true else
       (* 1109-1111 / 1239-1241 / 377-379: the host must fund its share *)
       if (psum (hi_inputs hi) <? ct_hfund t) then r_fail r w sel extra c0 s1 true else
       let csig := Sig (r_key r) (MContract t) in
